@@ -5,6 +5,9 @@
   `PathOK c fl path` says that `path` is the active branch of the chain state `c`: linked through the tree from the tip
   to the root, every block stored, unspent map = replay (as partial functions), LastBlockHeight = length, and the undo
   file of every active height above the floor `fl` holds exactly the undo data of that height's active block.
+  Second part: tree well-formedness `TreeWF`, exact cumulative work `workOf` and `MaxWork` (the tip is a maximum-work
+  node), the block tree `BlockTree` the deliveries are drawn from (the assumptions of the all-histories theorems), and the
+  ancestor relation `Desc`.
 -/
 import GocoinV.Model.ChainTree
 namespace GocoinV.UtxoOps
@@ -63,5 +66,63 @@ structure PathOK (c : Chain) (fl : Nat) (path : List PE) : Prop where
   utxo : ∃ u, replay path = some u ∧ DBEq c.utxo u
   undo : UndoOK c fl path
   fresh : Fresh path
+
+-- ------------------------------------------------------------------------------------------ tree, work, block universe
+
+/-- tree well-formedness w.r.t. the block tree `U` the deliveries are drawn from: the root node has height 0 and valid bits; every other
+    node has its parent in the tree one level below and is listed among the parent's children; children lists name only
+    real children; every non-root node is a block of `U` (parent, bits, transaction count) and is in the block store with
+    that block's transactions; the block store holds only non-root nodes of the tree -/
+structure TreeWF (U : List Block) (c : Chain) : Prop where
+  root : ∃ r, getNode c c.root = some r ∧ r.height = 0 ∧ r.bits % 0x1000000 ≠ 0
+  par : ∀ x n, getNode c x = some n → x ≠ c.root →
+        ∃ p, getNode c n.parent = some p ∧ n.height = p.height + 1 ∧ x ∈ p.childs
+  childs : ∀ y p, getNode c y = some p → ∀ x ∈ p.childs, x ≠ c.root ∧ ∃ n, getNode c x = some n ∧ n.parent = y
+  blk : ∀ x n, getNode c x = some n → x ≠ c.root →
+        ∃ b ∈ U, b.id = x ∧ b.parent = n.parent ∧ b.bits = n.bits ∧ n.txCount = b.txs.length ∧
+          ∃ s, alookup x c.store = some s ∧ s.txs = b.txs
+  store : ∀ k s, alookup k c.store = some s → k ≠ c.root ∧ (getNode c k).isSome = true
+
+/-- cumulative work of a node: Σ difficulty over the nodes from `n` down to (excluding) the root; exact rationals -/
+def cumWorkN (c : Chain) : Nat → Node → Q
+  | 0, _ => Q.zero
+  | f + 1, n => if n.id == c.root then Q.zero else
+      match getNode c n.parent with
+      | none => Q.zero
+      | some p => (cumWorkN c f p).add (difficulty n.bits)
+
+def workOf (c : Chain) (n : Node) : Q := cumWorkN c n.height n
+
+/-- **the tip is a maximum-work node of the tree**: no node the chain knows (every node of the model's tree is fully
+    stored and has not been found invalid — invalid blocks are removed with their descendants when found) has more
+    cumulative work than the tip. Since work grows strictly along a branch this is the same as "≥ every other leaf". -/
+def MaxWork (c : Chain) : Prop :=
+  ∃ t, getNode c c.tip = some t ∧ ∀ x n, getNode c x = some n → (workOf c n).gt (workOf c t) = false
+
+def headR (root : Nat) : List PE → Nat
+  | [] => root
+  | e :: _ => e.id
+
+/-- `p` (tip first) is a chain of blocks of `U` hanging below `root` -/
+def UChain (U : List Block) (root : Nat) : List PE → Prop
+  | [] => True
+  | e :: rest => (∃ b ∈ U, b.id = e.id ∧ b.txs = e.txs ∧ b.parent = headR root rest) ∧ UChain U root rest
+
+/-- **the block tree the deliveries are drawn from** (assumptions on the delivered blocks): a block id determines the
+    block (ids are hashes); no block is empty (CheckBlock refuses a block without coinbase); every block's bits have a
+    non-zero mantissa (a valid target); BIP30 freshness along EVERY branch of the tree (no block re-uses a txid that is
+    still in the unspent map of the branch below it); and no branch is longer than the unwind window `UnwindBufLen` =
+    2560 (so every connected block's undo file is written and none is pruned). -/
+structure BlockTree (root : Nat) (U : List Block) : Prop where
+  ids : ∀ b1 ∈ U, ∀ b2 ∈ U, b1.id = b2.id → b1 = b2
+  txs : ∀ b ∈ U, b.txs ≠ []
+  bits : ∀ b ∈ U, b.bits % 0x1000000 ≠ 0
+  fresh : ∀ p, UChain U root p → Fresh p
+  depth : ∀ p, UChain U root p → p.length ≤ UnwindBufLen
+
+/-- `a` is `x` or an ancestor of `x` -/
+inductive Desc (c : Chain) (a : Nat) : Nat → Prop
+  | refl : Desc c a a
+  | step {x : Nat} {n : Node} : getNode c x = some n → x ≠ c.root → Desc c a n.parent → Desc c a x
 
 end GocoinV.ChainTree
